@@ -190,6 +190,72 @@ Example C16_buckets_nonvacuous :
   resolve t2 meta_id [[97]] = Some [0; 0; 0; 2].
 Proof. vm_compute. repeat split; auto; repeat constructor. Qed.
 
+(* Freshness of bucket ids over whole histories.  [fresh m]: the id counter is
+   below the bound 45*2^24; every index entry's id and parent id are at most
+   the counter (and do not start with 'b'); keys live only under ids up to the
+   counter; index values are pairwise distinct.  Every sequence of Put / Delete
+   / CreateBucket addressed by bucket paths preserves it (commit and begin
+   carry the merged map unchanged: C16_commit_refines, view_begin) ... *)
+Theorem C16_fresh_history : forall ops t, tx_ok t -> fresh (view t) ->
+  tx_ok (fold_left bstep ops t) /\ fresh (view (fold_left bstep ops t)).
+Proof. exact fresh_history. Qed.
+Print Assumptions C16_fresh_history.
+
+(* ... hence CreateBucket, at any point of any history, allocates an id whose
+   prefix is unused: no key and no nested bucket lives under it, no index
+   entry points to it; C16_bucket_isolation therefore applies to the new
+   bucket against every live one. *)
+Theorem C16_create_never_reuses : forall ops t0 id n t',
+  tx_ok t0 -> fresh (view t0) ->
+  let t := fold_left bstep ops t0 in
+  live (view t) id -> ctr (view t) + 1 < id_bound -> b_create t id n = (t', E_OK) ->
+  let nid := be32_enc (ctr (view t) + 1) in
+  bucket_subs t' id = OMap.put (bucket_subs t id) n nid /\
+  bucket_keys t nid = [] /\ bucket_subs t nid = [] /\
+  (forall k v, In (k, v) (view t) -> is_index k = true -> to_id v <> nid) /\
+  fresh (view t').
+Proof. exact create_never_reuses. Qed.
+Print Assumptions C16_create_never_reuses.
+
+(* DeleteBucket of a bucket without nested buckets, as a specification
+   operation: it removes exactly the bucket's prefix slice and its index
+   entry; every listing under a prefix matching neither is unchanged.  (The
+   recursion over nested buckets stays tied by the correspondence.) *)
+Theorem C16_delete_childless_bucket : forall t id n v t', tx_ok t -> t_w t = true ->
+  fetch t (bidx_key id n) = Some v ->
+  let cid := to_id v in
+  nth 0 cid 0 <> 98 -> bucket_subs t cid = [] ->
+  b_delete_bucket t id n = (t', E_OK) ->
+  view t' = OMap.del (del_all (view t) (prefixed cid (bucket_keys t cid))) (bidx_key id n) /\
+  bucket_keys t' cid = [] /\ fetch t' (bidx_key id n) = None /\
+  (forall p, (forall x, strip_prefix p (cid ++ x) = None) -> strip_prefix p (bidx_key id n) = None ->
+     under p (view t') = under p (view t)).
+Proof. exact delete_childless_bucket. Qed.
+Print Assumptions C16_delete_childless_bucket.
+
+(* Non-vacuity: the freshly initialised store satisfies [fresh]; after
+   creating bucket "a" (id 2) and putting two keys, DeleteBucket "a" empties
+   exactly that slice. *)
+Example C16_fresh_nonvacuous :
+  let init : kvs := [(writeloc_key, [0]); (bidx_key meta_id [102], [0; 0; 0; 1]); (cbid_key, [0; 0; 0; 1])] in
+  let t0 := begin {| d_store := init; d_ck := []; d_cr := []; d_max := 0; d_always := false |} true in
+  let t := fold_left bstep [BCreate [] [97]; BPut [[97]] [49] [7]; BPut [[97]] [50] []; BPut [] [51] [3]] t0 in
+  fresh init /\ tx_ok t0 /\ view t0 = init /\
+  bucket_keys t [0; 0; 0; 2] = [([49], [7]); ([50], [])] /\
+  (let '(t', c) := b_delete_bucket t meta_id [97] in
+   c = E_OK /\ bucket_keys t' [0; 0; 0; 2] = [] /\ bucket_keys t' meta_id = bucket_keys t meta_id /\
+   bucket_subs t' meta_id = [([102], [0; 0; 0; 1])]).
+Proof.
+  cbv zeta. split; [|vm_compute; repeat split; auto; repeat constructor].
+  unfold fresh. change (ctr _) with 1. split; [vm_compute; split; [discriminate|reflexivity]|]. split; [|split].
+  - intros k v [[= <- <-]|[[= <- <-]|[[= <- <-]|[]]]] Hq; try (vm_compute in Hq; discriminate).
+    vm_compute. repeat split; auto; try discriminate; repeat constructor.
+  - intros k v [[= <- <-]|[[= <- <-]|[[= <- <-]|[]]]] Hq; try (vm_compute in Hq; discriminate).
+    vm_compute. repeat split; auto; try discriminate; repeat constructor.
+  - intros k1 v1 k2 v2 [[= <- <-]|[[= <- <-]|[[= <- <-]|[]]]] [[= <- <-]|[[= <- <-]|[[= <- <-]|[]]]] Hq1 Hq2 E;
+      auto; try (vm_compute in Hq1; discriminate); try (vm_compute in Hq2; discriminate).
+Qed.
+
 (* Non-vacuity: a history with a reader that keeps its snapshot across a
    commit, a rollback, a flushing and a non-flushing commit is admissible, and
    the implementation model returns the expected values. *)
